@@ -209,3 +209,57 @@ func mergeOfTwoShapes(c *ctx, a, b keyShape) *Finding {
 	}
 	return nil
 }
+
+// c12MultiBatchBlocks: source blocks each buffered from several IngestRows batches before one flush (2+1 rows),
+// merged under MaxRowGroupRows = 4 / 5 / 6. A combined block is judged by the rows it really holds; and every
+// block's recorded row count is the number of rows in it (the merge planner trusts that number).
+func c12MultiBatchBlocks(c *ctx) {
+	for _, limit := range []int{4, 5, 6} {
+		cfg := bs.DefaultBloomSearchEngineConfig()
+		cfg.PartitionFunc = partitionFunc("p")
+		cfg.MaxBufferedTime = time.Hour
+		cfg.MaxRowGroupRows = limit
+		cfg.RowDataCompression = bs.CompressionNone
+		env := NewEnv(cfg)
+		h := &History{Env: env, Rows: map[int]*StoredRow{}}
+		id := 0
+		for f := 0; f < 3; f++ {
+			var dones []chan error
+			for _, n := range []int{2, 1} {
+				var rows []map[string]any
+				for k := 0; k < n; k++ {
+					id++
+					rows = append(rows, map[string]any{"_id": id, "p": "a"})
+				}
+				d := make(chan error, 1)
+				dones = append(dones, d)
+				env.Eng.IngestRows(context.Background(), rows, d)
+			}
+			env.Eng.Flush(context.Background())
+			for _, d := range dones {
+				<-d
+			}
+		}
+		_, merr := env.Eng.Merge(context.Background())
+		layout, lerr := h.Layout()
+		replay := map[string]any{"MaxRowGroupRows": limit, "files": 3, "batches_per_block": "2 rows + 1 row", "merge_err": fmt.Sprint(merr)}
+		c.r.Case(true, fmt.Sprint("multi-batch-blocks", limit))
+		c.r.Hit("merge.multi-batch-blocks")
+		if merr != nil || lerr != nil {
+			c.r.Add(Finding{Kind: "violation", Check: "multi-batch-merge-failed", Detail: fmt.Sprintf("merge %v / layout %v", merr, lerr), Replay: replay})
+			env.Stop()
+			continue
+		}
+		for _, f := range layout {
+			for _, b := range f.Blocks {
+				if b.Meta.Rows != len(b.Rows) {
+					c.r.Add(Finding{Kind: "violation", Check: "row-count", Detail: fmt.Sprintf("a block records Rows=%d but holds %d rows (its rows were buffered from two batches before the flush, or merged from such blocks)", b.Meta.Rows, len(b.Rows)), Replay: replay})
+				}
+				if len(b.Rows) > limit {
+					c.r.Add(Finding{Kind: "violation", Check: "row-group-limits", Detail: fmt.Sprintf("a block holds %d rows; MaxRowGroupRows=%d", len(b.Rows), limit), Replay: replay})
+				}
+			}
+		}
+		env.Stop()
+	}
+}
